@@ -352,7 +352,8 @@ def main():
                       'theorems and the exactness demand are about an exchange that starts with reader and card block numbers in step '
                       '(after activation or after successful exchanges); see the known finding for exchanges after a failed one',
                       'frame waiting times are not modelled (every clf.exchange returns or raises)']
-    ck.coq(targets=['Proofs/IsoDep.vo', 'Proofs/IsoDepSync.vo'], props='C12')
+    ck.coq(targets=['Proofs/IsoDep.vo', 'Proofs/IsoDepSync.vo', 'Proofs/IsoDepLegacy.vo', 'Proofs/IsoDepApdu.vo',
+                    'Proofs/IsoDepStream.vo'], props='C12')
     mr = ck.model()
     if mr is None:
         ck.finish()
@@ -381,6 +382,7 @@ def main():
         add('corpus', spec_of(fsci=0, cmiu=13, items=[T(bytes([0xFF, 0, 0, 30]), '', [[], [3]])]))      # S(WTX) while the card chains
         add('corpus', spec_of(fsci=0, cmiu=13, items=[T(bytes([0xFF, 0, 0, 1])), T(bytes([0xFF, 0, 0, 30]), '', [[], [3]])]))
         add('corpus', spec_of(fwi=11, items=[T(bytes([0xFF, 1, 0, 5]), 'DLDL'), T(bytes([0xFF, 2, 0, 5]), 'LD')]))  # stale response after a failed exchange
+        add('corpus', spec_of(fwi=11, items=[T(bytes([0xFF, 1, 0, 5]), 'DLDL'), T(bytes([0xFF, 2, 0, 5]), 'DL')]))  # executed twice after a failed exchange
         e = T(b'')
         e['nomonitor'] = 1                                                                              # not an APDU: correspondence only
         add('corpus', spec_of(items=[e]))
@@ -401,7 +403,7 @@ def main():
                 for chunk in range(0, len(items), 6):
                     add('nofault', spec_of(typ='AB'[(fsci + chunk) % 2], fsci=fsci, cmiu=cmiu, items=items[chunk:chunk + 6]))
         # send_apdu: header/Lc/Le encoding and status handling on top of the exchange
-        for _ in range(40 if quick else 400):
+        for _ in range(150 if quick else 1500):
             fsci = rng.randrange(9)
             items = []
             for _ in range(4):
@@ -426,20 +428,19 @@ def main():
 
         # ---- exhaustive fault scripts over short exchanges (both chainings, WTX), all budgets, both block numbers
         nf = 2 if quick else 3
-        kinds = FAULTS[:3] if quick else FAULTS
+        kinds = FAULTS
         shapes = [(4, 5, []), (20, 5, []), (4, 20, []), (20, 20, []), (4, 5, [[7]]), (4, 20, [[], [7]]), (20, 5, [[7]])]
         for cl, rl, pl in shapes:
             nominal = nblocks(cl, 13) + nblocks(rl, 13) - 1 + sum(len(p) for p in pl)
             for fwi in (12, 11, 10, 4):
                 for warm in (0, 1):
-                    for sc in fault_scripts(nominal + (2 if quick else 3), nf, kinds):
-                        if quick and sc.count('L') + sc.count('C') == 2 and fwi == 10 and warm:
-                            continue
+                    nfl = nf + 1 if (not quick and nominal <= 2 and fwi in (10, 4)) else nf
+                    for sc in fault_scripts(nominal + (2 if quick else 3), nfl, kinds):
                         items = ([T(bytes([0xFF, 0, 0, 1]))] if warm else []) + [T(raw_apdu(rng, cl, rl), sc, pl)]
                         add('exhaustive', spec_of(fsci=0, fwi=fwi, cmiu=13, items=items))
 
         # ---- random sessions
-        for _ in range(1500 if quick else 40000):
+        for _ in range(6000 if quick else 150000):
             fsci = rng.choice([0, 0, 1, 2, 3, 4, 5, 6, 7, 8, rng.randrange(16)])
             max_send = rng.choice([256, 256, 256, 255, 64, 20])
             miu = min(FSC[min(fsci, 8)], max_send) - 3
@@ -518,7 +519,7 @@ def main():
     # ------------------------------------------------------------------ simulator against the extracted Coq card
     sim_lines, sim_expect = [], []
     if not ck.replay:
-        for _ in range(1500 if quick else 20000):
+        for _ in range(5000 if quick else 60000):
             cfsc = rng.choice(FSC)
             cmiu = rng.choice([1, 3, 13, 29, 253])
             plan = [[rng.randrange(1, 60) for _ in range(rng.choice([1, 2]))] if rng.random() < 0.3 else [] for _ in range(rng.randrange(0, 6))]
@@ -572,6 +573,9 @@ def main():
     if (got == 'hang') != (r == 'hang'):
         ck.correspondence_mismatch('rack-stream', {'impl': r, 'model': got})
 
+    if flags[:2] != '11' and not ck.violations:
+        ck.broken.append('the tree under test is not the repaired reader the theorems are about (variant %s) '
+                         'and the search found no failing input' % flags)
     ck.finish(level='proof',
               rule='sessions of 1-4 APDUs on real Type4ATag/Type4BTag objects over the scripted air and the ISO 14443-4 card: '
                    'command and response lengths around k*(FSC-3) for FSCI 0..8 (RFU 9..15 in the random part), all FWI retry budgets, '
